@@ -96,6 +96,7 @@ def run(check, prog):
     # ... including its multi-channel branch (rule shared with C06)
     from . import c06
     c06.illumination_preparation(check, prog)
+    f9_point_coordinates(check, prog)
     f8_wiring(check, prog)
     f5_state(check, prog)
 
@@ -833,3 +834,61 @@ def f8_wiring(check, prog):
                   '`flat` index)', prog.loc(q, fd),
                   fail_detail='data is %s' % (show(v[2][1])[:120] if len(v) > 2 and
                                               len(v[2]) > 1 else None))
+
+
+def f9_point_coordinates(check, prog):
+    """F9: a result computed on explicit detector points lies on those points.
+
+    For a grid the flattened detector's positions are levels of the 'flat' index and
+    travel with it.  For explicit points they are ordinary coordinates along 'point'
+    (x, y, z or r, theta, phi); `coords['point']` alone is only the running number.
+    A DataArray constructor ignores the coordinates attached to a coordinate it is
+    given, so the field must be built with the detector's point coordinates named
+    explicitly: something must range over the detector's coordinates."""
+    q = 'holopy.scattering.imageformation.ImageFormation._pack_field_into_xarray'
+    fd = prog.func(q)
+    loc = prog.loc(q, fd)
+
+    def decide(t):
+        if t[0] == 'cmp' and t[1] == 'in' and t[2] == ('const', 'flat'):
+            return False
+        if t[0] == 'cmp' and t[1] == 'in' and t[2] == ('const', 'point'):
+            return True
+        return None
+    it = Interp(prog, max_depth=1, decide=decide, opaque=['holopy.core.metadata.flat'])
+    v = it.analyze(q).ret
+    schema = sym(fd.args.args[2].arg)
+    FS = intern(('call', 'holopy.core.metadata.flat', (schema,), ()))
+    new = [x for x in subterms(v) if x[0] == 'call' and x[1] == 'xarray.DataArray']
+    ok = bool(new)
+    detail = 'no DataArray is built'
+    if ok:
+        co = kw(new[0], 'coords')
+        carried = False
+        if co is not None:
+            for C in (intern(('attr', FS, 'coords')), intern(('attr', schema, 'coords'))):
+                for x in subterms(co):
+                    # ranges over all coordinates: .items() / iteration / passed whole
+                    if x[0] == 'call' and isinstance(x[1], tuple) and x[1][0] == 'attr' \
+                            and x[1][1] == C and x[1][2] in ('items', 'keys', 'values'):
+                        carried = True
+                    if x[0] == 'comp' and any(g[1] == C for g in x[3]):
+                        carried = True
+                    if x[0] in ('mut', 'call') and any(
+                            a == C for a in (x[3] if x[0] == 'mut' else x[2])):
+                        carried = True
+                if co == C:
+                    carried = True
+        # ... or assigned afterwards
+        for x in subterms(v):
+            if x[0] == 'call' and isinstance(x[1], tuple) and x[1][0] == 'attr' and \
+                    x[1][2] == 'assign_coords' and any(
+                        y == ('attr', FS, 'coords') for a in x[2] for y in subterms(a)):
+                carried = True
+        ok = carried
+        detail = 'for explicit points the field is built with coords = %s: the x, y, z ' \
+            '(or r, theta, phi) of the points are not carried over, the result has only ' \
+            'the running index `point`' % (show(co)[:160] if co is not None else None)
+    check.require(ok, 'F9-point-coordinates', '_pack_field_into_xarray [points]',
+                  'the positions of explicit detector points are carried into the result',
+                  loc, fail_detail=detail)
